@@ -98,6 +98,30 @@ def run(ctx):
     ctx.ob('C19.1', 'each fwrite result is checked', all(any(u.op == 'icmp' for u in d.users(c.id)) or
                                                        any(u.op == 'icmp' for x in d.users(c.id) for u in d.users(x.id)) for o, k, cnt, c in wseq),
            'a short write is reported, not silently ignored', loc=d.loc)
+    # the string table goes out in its full length: fwrite(G->S, G->S->sz, 1, wp) (hand mutants r6)
+    fw = call_sites(d, 'fwrite')
+    lastw = fw[-1] if fw else None
+    okS_ = False
+    if lastw is not None:
+        szi = d.get(d.strip(lastw.args[1])) if isinstance(lastw.args[1], str) else None
+        okS_ = is_load_of(d, lastw.args[0], PI + 'S') and szi is not None and szi.op == 'load' and d.field(szi) == 'dr_pi_string_table.sz' and \
+            is_load_of(d, d.ap(szi.ops[0]).root, PI + 'S') and const_int(lastw.args[2]) == 1
+    ctx.ob('C19.1', 'string table written in its full length', okS_,
+           'the last object written is G->S with length G->S->sz (header, index and characters): sizeof(*G->S) writes the header only '
+           'and every string of the file is lost', loc=(lastw.loc if lastw is not None else d.loc))
+    # reader: the version line decides by (in)equality, and the mapping is private and writable (the reader stores the string
+    # table's index / character pointers into it; a shared mapping of the read-only descriptor cannot be created)
+    sc = call_sites(rd, 'strcmp')
+    okv = len(sc) == 1 and all(u.op == 'icmp' and u.pred in ('eq', 'ne') and const_int(u.ops[1]) == 0 for u in rd.users(sc[0].id)) and \
+        bool(rd.users(sc[0].id))
+    ctx.ob('C19.1', 'reader rejects every other format version', okv,
+           'the header line read is compared for equality with DAG_RECORDER_HEADER: an ordering test accepts files of other versions '
+           'whose records have another layout', loc=(sc[0].loc if sc else rd.loc))
+    for m_ in call_sites(rd, 'mmap'):
+        prot, flags = const_int(m_.args[2]), const_int(m_.args[3])
+        ctx.ob('C19.1', 'reader maps the file private and writable', prot == 3 and flags is not None and flags & 2 == 2 and flags & 1 == 0,
+               'PROT_READ|PROT_WRITE with MAP_PRIVATE: the fix-ups S->I / S->C are stored into the mapping, and must not reach the file',
+               loc=m_.loc, detail='prot=%s flags=%s' % (prot, flags))
     # reader pointer arithmetic
     mm = call_sites(rd, 'mmap')
     sT = [s for s in rd.stores_to(PI + 'T')]
@@ -1369,6 +1393,12 @@ def rule5_growth(ctx):
 DUMP = 'src/profiler/dr_dump.c'
 READ = 'src/profiler/read_dag.c'
 MUTANTS = [
+    {'name': 'dump writes only the header of the string table (hand mutant r6)', 'expect': 'C19.1',
+     'edits': [(DUMP, "      || fwrite(G->S, G->S->sz, 1, wp) != 1) {", "      || fwrite(G->S, sizeof(*G->S), 1, wp) != 1) {")]},
+    {'name': 'reader accepts format versions that sort before its own (hand mutant r6)', 'expect': 'C19.1',
+     'edits': [('src/profiler/read_dag.c', "  if (strcmp(header_buf, DAG_RECORDER_HEADER)) {", "  if (strcmp(header_buf, DAG_RECORDER_HEADER) > 0) {")]},
+    {'name': 'reader maps the file shared (hand mutant r6)', 'expect': 'C19.1',
+     'edits': [('src/profiler/read_dag.c', "\t   MAP_PRIVATE, fd, 0);", "\t   MAP_SHARED, fd, 0);")]},
     {'name': 'reader maps the file header_sz bytes short (seed5 C19/m3)', 'expect': 'C19.1',
      'edits': [('src/profiler/read_dag.c', "  a = mmap(NULL, file_sz, PROT_READ | PROT_WRITE,", "  a = mmap(NULL, file_sz - header_sz, PROT_READ | PROT_WRITE,")]},
     {'name': 'object initialiser clears the header fields the shrinking copy set before calling it (seed5 C19/m1)', 'expect': 'C19.2',
